@@ -273,8 +273,10 @@ pub fn inspect(b: &[u8]) -> Report {
         }
         // inner framing: from the first sub-chunk (or right after the header, tolerating up to 8
         // zero bytes of header padding) the sub-chunks must tile the rest of the MCNK.
+        // With the high-res-holes flag the MCVT/MCNR offsets are not in the header, so the lowest
+        // header offset need not be the first sub-chunk: scan from the header end in that case too.
         let mut start = h + 128;
-        if first_sub != usize::MAX {
+        if first_sub != usize::MAX && !holes_in_offsets {
             start = first_sub;
         } else {
             let mut skipped = 0;
@@ -282,6 +284,7 @@ pub fn inspect(b: &[u8]) -> Report {
                 start += 4;
                 skipped += 4;
             }
+            start = start.min(first_sub);
         }
         let size_liquid = u32_at(b, h + 0x64) as usize;
         let mut pos = start;
